@@ -79,6 +79,8 @@ def step_lit(st):
 
 def view_lit(v):
     n = v[0]
+    if n == "unfolded" and v[1] < 0:
+        return f"(VUnfoldedNeg {C.nat(-v[1])})"
     if n in ("unfolded", "slice"):
         return f"({'VUnfolded' if n == 'unfolded' else 'VSlice'} {C.nat(v[1])})"
     return {"validate": "VValidate", "tensor": "VTensor", "vec": "VVec", "norm": "VNorm", "matrix": "VMatrix", "slices": "VSlices"}[n]
@@ -217,7 +219,7 @@ def view_predicate(d, v, res, dense):
     name = v[0]
     k = d["kind"]
     order = dense.ndim
-    if name == "unfolded" and v[1] >= order:
+    if name == "unfolded" and not (-order <= v[1] < order):
         return None if st != "ok" else f"to_unfolded accepted mode {v[1]} of an order-{order} tensor"
     if st != "ok":
         return f"{name}{v[1:]} raised on a well-formed {k} decomposition: {val}"
@@ -235,7 +237,7 @@ def view_predicate(d, v, res, dense):
         exp = dense * I64(d["mask"]) if d.get("mask") is not None else dense
         return None if same_int_array(val, exp) else "to_tensor differs from the defining contraction" + (" (masked)" if d.get("mask") is not None else "")
     if name == "unfolded":
-        return None if same_int_array(val, unfold_spec(dense, v[1])) else f"to_unfolded(mode={v[1]}) is not the unfolding of the reconstruction"
+        return None if same_int_array(val, unfold_spec(dense, v[1] % order)) else f"to_unfolded(mode={v[1]}) is not the unfolding of the reconstruction"
     if name == "vec":
         return None if same_int_array(val, vec_spec(dense)) else "to_vec is not the vectorisation of the reconstruction"
     if name == "matrix":
@@ -365,6 +367,8 @@ def views_of(d, malformed):
     if k == "cp":
         order = len(d["fs"])
         vs = [("validate",), ("tensor",), ("vec",), ("norm",)] + [("unfolded", m) for m in range(order + (0 if malformed else 1))]
+        if d.get("negmodes") and not malformed:   # modes counted from the end: -1, -order, and -(order+1) which must be rejected
+            vs += [("unfolded", m) for m in sorted({-1, -order, -(order + 1)})]
         if d.get("mask") is not None:
             vs = [("tensor",), ("validate",)]
         return vs
@@ -593,7 +597,7 @@ def gen_valid(tier, rng):
             for wk in ("none", "ones", "signed"):
                 if not T and len(s) >= 3 and rng.random() < 0.5:
                     continue
-                yield dict(kind="cp", w=weights(rng, wk, R), fs=[rint(rng, (n, R)) for n in s], wk=wk)
+                yield dict(kind="cp", w=weights(rng, wk, R), fs=[rint(rng, (n, R)) for n in s], wk=wk, negmodes=(len(s) <= 2 or rng.random() < 0.4))
             # masked route (entrywise 0/1 mask and a general integer mask)
             if len(s) >= 1 and (T or rng.random() < 0.6):
                 wk = rng.choice(["none", "ones", "signed"])
@@ -795,6 +799,9 @@ def gen_malformed(tier, rng):
         b = list(rk); b[0] = r0 + 1; yield dict(kind="tr", cores=mkc(b), why="ring not closed")
         cs = mkc(rk); i = rng.randrange(o - 1); cs[i] = rint(rng, (rk[i], s[i], rk[i + 1] + 1)); yield dict(kind="tr", cores=cs, why="consecutive ranks differ")
         yield dict(kind="tr", cores=[rint(rng, (r0, s[0], r0))], why="a single core")
+        ra, rb_ = rng.sample([1, 2, 3], 2); nb2 = [rng.randint(1, 3) for _ in range(2)]
+        yield dict(kind="tr", cores=[rint(rng, (ra, nb2[0], rb_)), rint(rng, (ra, nb2[1], rb_))],
+                   why="two cores, the last one with its two ranks swapped (the reshape / moveaxis / dot closure of tr_to_tensor goes through)")
         if r0 >= 2:
             b = list(rk); b[-1] = r0 - 1; yield dict(kind="tr", cores=mkc(b), why="ring not closed (last rank smaller)")
         cs = mkc(rk); cs[i] = rint(rng, (rk[i], s[i])); yield dict(kind="tr", cores=cs, why="2-D core", views=V)
@@ -863,6 +870,8 @@ def well_formed_py(d):
             return d["w"] is None or d["w"].shape == (cols[0],)
         if k == "tucker":
             fs, core = d["fs"], d["core"]
+            if d.get("tr"):   # transpose_factors=True: the stored matrices are the transposed factors
+                fs = [f.T if f.ndim == 2 else f for f in fs]
             return len(fs) >= 2 and len(fs) == core.ndim and all(f.ndim == 2 and f.shape[1] == core.shape[i] for i, f in enumerate(fs))
         if k in ("tt", "tr", "ttm"):
             cs = d["cores"]; nd = 4 if k == "ttm" else 3
@@ -922,11 +931,17 @@ def clf_unvalidated(f):
     return f["inputs"].get("silent") is True and f["inputs"].get("input_kind") == "tuple"
 
 
+def clf_cp_negative_mode(f):
+    # cp_to_unfolded(cp, -k) for order >= 2 (the order-1 branch handles -1 correctly)
+    return f["inputs"].get("negative_mode") is True and f["inputs"].get("kind") == "cp" and f["inputs"].get("order", 0) >= 2
+
+
 def clf_setitem_stale(f):
     return f["inputs"].get("setitem") == "reshaping" and f["inputs"].get("input_kind") == "wrapper"
 
 
-CLASSIFIERS = {"wrapper_setitem_stale_cache": clf_setitem_stale, "unvalidated_reconstruction": clf_unvalidated}
+CLASSIFIERS = {"wrapper_setitem_stale_cache": clf_setitem_stale, "unvalidated_reconstruction": clf_unvalidated,
+               "cp_unfolded_negative_mode": clf_cp_negative_mode}
 
 
 def describe(d):
@@ -971,7 +986,7 @@ def payload_arrays(d):
         p["cplx"] = [d["cplx"][0], d["cplx"][1], {"shape": list(d["cplx"][2].shape), "values": [_num(x) for x in d["cplx"][2].ravel()]}]
     if d.get("views") is not None:
         p["views"] = [list(v) for v in d["views"]]
-    for key in ("skip", "tr", "why", "onedim", "onedim_exact", "late_reject", "rational", "dtypes", "no_wrapper", "half"):
+    for key in ("skip", "tr", "why", "onedim", "onedim_exact", "late_reject", "rational", "dtypes", "no_wrapper", "half", "negmodes"):
         if d.get(key) is not None:
             p[key] = d[key]
     return p
@@ -992,7 +1007,7 @@ def from_payload(p):
     for key in ("fs", "cores", "ps"):
         if p.get(key) is not None:
             d[key] = [arr(a) for a in p[key]]
-    for key in ("skip", "tr", "why", "onedim", "onedim_exact", "late_reject", "rational", "dtypes", "no_wrapper", "half"):
+    for key in ("skip", "tr", "why", "onedim", "onedim_exact", "late_reject", "rational", "dtypes", "no_wrapper", "half", "negmodes"):
         if p.get(key) is not None:
             d[key] = p[key]
     return d
@@ -1073,6 +1088,8 @@ def check_decomp(chk, d, rng, malformed, record=True):
         if msg:
             if phase == "reshaping":
                 ep = SETITEM_EP.get(d["kind"], ep); extra = {"setitem": "reshaping"}
+            elif wf and dcur["kind"] == "cp" and v[0] == "unfolded" and v[1] < 0:
+                ep = "tensorly.cp_tensor.cp_to_unfolded"; extra = {"negative_mode": True}
             msgs.append((route, v, msg, phase))
             if record:
                 chk.finding(ep, dict(describe(dcur), view=vname(v), backend=route[0], input_kind=route[1], phase=phase, data=payload_arrays(d), **extra), msg,
@@ -1217,7 +1234,7 @@ def run(chk):
     chk.cov["exhaustive"] = False
     chk.cov["skipped_timeouts"] = SKIPPED["timeouts"]
     chk.cov["rule"] = ("one case = one decomposition (CP / Tucker / TT / TR / TT-matrix / PARAFAC2; integer entries in [-3,3]) observed through every view "
-                       "(validate|.shape/.rank, to_tensor [masked], to_unfolded for every mode + one invalid mode, to_vec, cp_norm / wrapper .norm(), to_matrix, slice(s)) under both tenalg backends "
+                       "(validate|.shape/.rank, to_tensor [masked], to_unfolded for every mode + one invalid mode (CP of the enumerated boxes also the negative modes -1, -order and the invalid -(order+1): order >= 2 is the classified known finding cp_to_unfolded_negative_mode), to_vec, cp_norm / wrapper .norm(), to_matrix, slice(s)) under both tenalg backends "
                        "(the einsum TT-matrix route against its own model), "
                        "as tuple (one CViews case) and as wrapper-object HISTORY per backend (CObj cases run through the object model: construction, shuffled multi-step views with repeats, a shape-preserving __setitem__ phase after which the views must follow the new contents, and a shape-changing one = the classified known-finding class); plus mixed-dtype variants (int64 indicator / float32 / float64, half-integer floats, one complex array); CP: all shapes of order 1-3 over {1,2,3} (+ sampled order 4; thorough: all) x rank {1,2,3} x "
                        "weights {None, ones, signed non-unit} + masked; Tucker/TT/TR: all shapes of order 1-2 + sampled order 3-4 with random ranks in {1,2,3} incl. rank > dim, skip_factor, transpose_factors; "
